@@ -326,6 +326,23 @@ func (e *Engine) load(st *State, p PtrV, pos token.Pos) Val {
 		return v
 	}
 	e.nilCheck(st, p, pos)
+	if p.DynIdx != nil {
+		// element selected by a non-constant index (in range: obligation emitted when the address was taken)
+		pick := func(k int64) Val {
+			pk := p
+			pk.Path = append([]int{}, p.Path...)
+			pk.Path[p.DynPos] = int(k)
+			pk.DynIdx = nil
+			pk.NonNil = true
+			return e.load(st, pk, pos)
+		}
+		res := pick(0)
+		for k := int64(1); k < p.DynLen; k++ {
+			c := Eq(*p.DynIdx, e.ar.idxLit(k))
+			res = mapVal2(pick(k), res, func(x, y Term) Term { return Ite(c, x, y) })
+		}
+		return res
+	}
 	if cp, ok := e.constPointerGlobal(p); ok {
 		return cp
 	}
@@ -413,6 +430,19 @@ func (e *Engine) store(fr *Frame, st *State, addr Val, v Val, pos token.Pos) {
 		return
 	}
 	e.nilCheck(st, p, pos)
+	if p.DynIdx != nil {
+		for k := int64(0); k < p.DynLen; k++ {
+			pk := p
+			pk.Path = append([]int{}, p.Path...)
+			pk.Path[p.DynPos] = int(k)
+			pk.DynIdx = nil
+			pk.NonNil = true
+			cur := e.load(st, pk, pos)
+			c := Eq(*p.DynIdx, e.ar.idxLit(k))
+			e.store(fr, st, pk, mapVal2(v, cur, func(x, y Term) Term { return Ite(c, x, y) }), pos)
+		}
+		return
+	}
 	if p.ArrBase {
 		av, ok := v.(ArrayV)
 		at := p.Ty.Underlying().(*types.Pointer).Elem().Underlying().(*types.Array)
@@ -598,9 +628,19 @@ func (e *Engine) indexAddr(fr *Frame, st *State, x *ssa.IndexAddr) Val {
 		}
 		if e.ar.scalarSortOrEmpty(at.Elem()) == "" {
 			// unrolled array of composite elements: only constant indices
+			if at.Len() > maxUnrolledArray {
+				unsupp("address of composite array element in struct (array too long)")
+			}
 			c, isConst := constVal(i)
-			if !isConst || at.Len() > maxUnrolledArray {
-				unsupp("address of composite array element in struct (non-constant index)")
+			if !isConst {
+				if b.DynIdx != nil {
+					unsupp("nested non-constant indices into unrolled arrays")
+				}
+				// non-constant index: loads and stores go through a case split over the elements
+				ii := i
+				np.Path = append(append([]int{}, b.Path...), 0)
+				np.DynPos, np.DynIdx, np.DynLen = len(np.Path)-1, &ii, at.Len()
+				return np
 			}
 			np.Path = append(append([]int{}, b.Path...), int(c.Int64()))
 			return np
